@@ -146,7 +146,151 @@ func checkKind(req abci.RequestCheckTx) string {
 	return "check"
 }
 
+// asyncClient is an asynchronous mempool connection (what the socket client is): CheckTxAsync
+// queues the request and returns at once; the request is in flight until the op line releases it
+// (FIFO, like the socket server answering in order): then it is forwarded to the application,
+// the response is set, the global and the per-request callbacks run in the answering goroutine.
+// FlushSync returns when every request queued before it has been answered.
+type asyncClient struct {
+	abcicli.Client
+	g     *gate
+	mu    sync.Mutex
+	cond  *sync.Cond
+	cb    abcicli.Callback
+	queue []*asyncEntry
+	m     *mpCase
+}
+
+type asyncEntry struct {
+	rr   *abcicli.ReqRes
+	req  abci.RequestCheckTx
+	name string
+}
+
+func newAsyncClient(inner abcicli.Client, g *gate) *asyncClient {
+	c := &asyncClient{Client: inner, g: g}
+	c.cond = sync.NewCond(&c.mu)
+	return c
+}
+
+func (c *asyncClient) SetResponseCallback(cb abcicli.Callback) {
+	c.mu.Lock()
+	c.cb = cb
+	c.mu.Unlock()
+}
+
+func (c *asyncClient) Error() error { return nil }
+
+func (c *asyncClient) answer(e *asyncEntry) {
+	res, _ := c.Client.CheckTxSync(e.req)
+	e.rr.Response = abci.ToResponseCheckTx(*res)
+	e.rr.Done()
+	c.mu.Lock()
+	cb := c.cb
+	c.mu.Unlock()
+	if cb != nil {
+		cb(e.rr.Request, e.rr.Response)
+	}
+	e.rr.InvokeCallback()
+}
+
+func (c *asyncClient) CheckTxAsync(req abci.RequestCheckTx) *abcicli.ReqRes {
+	e := &asyncEntry{rr: abcicli.NewReqRes(abci.ToRequestCheckTx(req)), req: req}
+	c.g.mu.Lock()
+	open := c.g.open
+	if !open {
+		c.g.arrived++
+	}
+	c.g.mu.Unlock()
+	if open {
+		c.answer(e)
+		return e.rr
+	}
+	c.mu.Lock()
+	if checkKind(req) == "recheck" {
+		c.g.mu.Lock()
+		e.name = "recheck:" + strconv.Itoa(c.g.nextRe)
+		c.g.nextRe++
+		c.g.mu.Unlock()
+	} else {
+		e.name = "check:" + strings.TrimPrefix(string(req.Tx), "c")
+	}
+	c.queue = append(c.queue, e)
+	c.mu.Unlock()
+	return e.rr
+}
+
+func (c *asyncClient) CheckTxSync(req abci.RequestCheckTx) (*abci.ResponseCheckTx, error) {
+	rr := c.CheckTxAsync(req)
+	rr.Wait()
+	return rr.Response.GetCheckTx(), nil
+}
+
+func (c *asyncClient) FlushAsync() *abcicli.ReqRes {
+	return c.Client.FlushAsync()
+}
+
+func (c *asyncClient) FlushSync() error {
+	c.mu.Lock()
+	for len(c.queue) > 0 {
+		c.cond.Wait()
+	}
+	c.mu.Unlock()
+	return nil
+}
+
+func (c *asyncClient) names() []string {
+	c.mu.Lock()
+	defer c.mu.Unlock()
+	var out []string
+	for _, e := range c.queue {
+		out = append(out, e.name)
+	}
+	return out
+}
+
+// releaseHead answers the head of the queue if it has this name (goroutine named for the quiescence check)
+func (c *asyncClient) releaseHead(name string, m *mpCase) bool {
+	c.mu.Lock()
+	if len(c.queue) == 0 || c.queue[0].name != name {
+		c.mu.Unlock()
+		return false
+	}
+	e := c.queue[0]
+	c.mu.Unlock()
+	m.wg.Add(1)
+	go m.mpThreadAnswer(c, e)
+	return true
+}
+
+func (m *mpCase) mpThreadAnswer(c *asyncClient, e *asyncEntry) {
+	defer m.wg.Done()
+	c.answer(e)
+	c.mu.Lock()
+	c.queue = c.queue[1:]
+	c.cond.Broadcast()
+	c.mu.Unlock()
+}
+
+func (c *asyncClient) drain() {
+	for {
+		c.mu.Lock()
+		if len(c.queue) == 0 {
+			c.mu.Unlock()
+			return
+		}
+		e := c.queue[0]
+		c.mu.Unlock()
+		c.answer(e)
+		c.mu.Lock()
+		c.queue = c.queue[1:]
+		c.cond.Broadcast()
+		c.mu.Unlock()
+	}
+}
+
 type mpCase struct {
+	async   *asyncClient
 	ver     string
 	g       *gate
 	mp      mempl.Mempool
@@ -159,11 +303,15 @@ type mpCase struct {
 	commitR bool // committer goroutine running
 }
 
-func newMPCase(ver string, pool int) (*mpCase, error) {
+func newMPCase(ver string, pool int, async bool) (*mpCase, error) {
 	m := &mpCase{ver: ver, g: &gate{open: true}, spawned: map[int]bool{}}
 	app := &recApp{}
 	mtx := new(tmsync.Mutex)
-	mcli := &gateClient{Client: abcicli.NewLocalClient(mtx, app), g: m.g}
+	var mcli abcicli.Client = &gateClient{Client: abcicli.NewLocalClient(mtx, app), g: m.g}
+	if async {
+		m.async = newAsyncClient(abcicli.NewLocalClient(mtx, app), m.g)
+		mcli = m.async
+	}
 	ccli := &gateClient{Client: abcicli.NewLocalClient(mtx, app), g: m.g}
 	conf := cfg.DefaultMempoolConfig()
 	conf.Version = ver
@@ -268,6 +416,13 @@ func (m *mpCase) settle() string {
 			if len(names) > 0 {
 				gs = strings.Join(names, ",")
 			}
+			if m.async != nil {
+				qs := "-"
+				if q := m.async.names(); len(q) > 0 {
+					qs = strings.Join(q, ",")
+				}
+				return fmt.Sprintf("gate=%s queue=%s pool=%d", gs, qs, m.mp.Size())
+			}
 			return fmt.Sprintf("gate=%s pool=%d", gs, m.mp.Size())
 		}
 	}
@@ -305,6 +460,12 @@ func (m *mpCase) spawnCommit() string {
 
 func (m *mpCase) rel(what string) string {
 	m.g.names()
+	if m.async != nil && (strings.HasPrefix(what, "check:") || strings.HasPrefix(what, "recheck:")) {
+		if !m.async.releaseHead(what, m) {
+			return "not-enabled"
+		}
+		return m.settle()
+	}
 	if !m.g.release(what) {
 		return "not-enabled"
 	}
@@ -313,6 +474,9 @@ func (m *mpCase) rel(what string) string {
 
 func (m *mpCase) close() {
 	m.g.openAll()
+	if m.async != nil {
+		m.async.drain()
+	}
 	done := make(chan struct{})
 	go func() { m.wg.Wait(); close(done) }()
 	select {
